@@ -30,6 +30,7 @@ var cmds = map[string]func(args []string) error{
 	"hist":    histMain,
 	"weights": weightsMain,
 	"conc":    concMain,
+	"stress":  stressCmd,
 	"mgr":     mgrMain,
 }
 
